@@ -407,8 +407,18 @@ func c07(c *Ctx) {
 		switch missing {
 		case 1, 2, 3:
 			delete(profile.Segments, uint8(missing))
+			if r.Chance(0.5) && profile.Segments != nil {
+				// ... and an entry under a key that is no segment number takes its place in the map: still missing
+				profile.Segments[[]uint8{0, 4, 5, 7, 255}[r.Pick(5)]] = types.Segment{Start: types.NewHHmm(8, 0), End: types.NewHHmm(9, 0)}
+				desc += " (an entry under another key present)"
+			}
 		case 4:
 			profile.Segments = nil
+		}
+		if accept && r.Chance(0.2) && profile.Segments != nil {
+			// an irrelevant entry under a key that is no segment number - even a back-to-front one - changes nothing
+			profile.Segments[[]uint8{0, 4, 9}[r.Pick(3)]] = types.Segment{Start: types.NewHHmm(18, 0), End: types.NewHHmm(7, 30)}
+			desc += " + irrelevant entry under a key outside 1..3"
 		}
 		var want []byte
 		if accept {
